@@ -7,8 +7,10 @@ their last pose (the code tiles them in place — the state side of that is Mode
 pixel global positions per sensor and path index; per-leaf evaluation through the source frame
 (getBH_level1); the collection loop `B[i] = sum(B[i:i+len]); B = delete(B, i+1:i+len)`; the
 three sensor back-rotation paths (unrotated / static orientation / general); handedness flip;
-pixel regrouping by equal shapes or by the cumulative `pix_inds` split; pixel_agg; sumup;
-squeeze.  Assumed (numpy semantics, exercised by the correspondence stream): tile/repeat/
+pixel regrouping by equal shapes or by the cumulative `pix_inds` split; pixel_agg; sumup
+(`level2Core`, the part before the code branches on `output`); then either squeeze /
+expand_dims (`getBH`, ndarray output) or the `itertools.product` index next to `B.reshape(-1, 3)`
+(`dataframe`, output="dataframe").  Assumed (numpy semantics, exercised by the correspondence stream): tile/repeat/
 reshape produce the (source, path, pixel) row order; grouping sources by field function and
 scattering the group results back by `order` is the identity permutation.
 -/
@@ -172,9 +174,37 @@ def tensor (flipX : V → V) (entries : List (Entry G V)) (sensors : List (Sens 
   let B2 := applySensors flipX sensors B1
   B2.map fun Bl => Bl.map (splitRow (pixInds sensors))
 
-/-- the whole of getBH_level2 after input formatting (ndarray output) -/
-def getBH (flipX : V → V) (vmin vmax : V → V → V) (entries : List (Entry G V))
-    (sensors : List (Sens G V)) (sumup squeeze : Bool) (agg : Agg) : Except Err (Out V) :=
+/-- `pixel_agg_func(...)` applied to every sensor's own pixel list: one value per (entry, m, sensor) -/
+def aggT (a : Agg) (vmin vmax : V → V → V) (B : List (List (List (List V)))) :
+    List (List (List (List V))) :=
+  B.map fun Bl => Bl.map fun Bm => Bm.map fun px => [aggList a vmin vmax px]
+
+/-- `np.sum(B, axis=0, keepdims=True)` -/
+def sumupT (B : List (List (List (List V)))) : List (List (List (List V))) :=
+  match B with
+  | [] => []
+  | t :: ts => [ts.foldl (fun acc u =>
+      List.zipWith (List.zipWith (List.zipWith (· + ·))) acc u) t]
+
+/-- `B.reshape(-1, 3)` / the row-major data of B: `[entry][m][sensor][pixel]` flattened -/
+def flat4 (B : List (List (List (List V)))) : List V :=
+  (B.map fun a => (a.map fun b => b.flatten).flatten).flatten
+
+/-- what both output branches of getBH_level2 share -/
+structure Core (V : Type) where
+  /-- length of the source axis: 1 after sumup -/
+  nsrc : Nat
+  /-- longest path -/
+  M : Nat
+  /-- pixel axes kept in B (`pix_shapes[0][:-1]`, nothing after pixel_agg) -/
+  pixShapeOut : List Nat
+  /-- B after pixel_agg and sumup, `[source][m][sensor][pixel]` -/
+  B : List (List (List (List V)))
+
+/-- getBH_level2 after input formatting up to and including `sumup` (the part before the code
+branches on `output`) -/
+def level2Core (flipX : V → V) (vmin vmax : V → V → V) (entries : List (Entry G V))
+    (sensors : List (Sens G V)) (sumup : Bool) (agg : Agg) : Except Err (Core V) :=
   let leaves := entries.flatMap Entry.leaves
   if entries.isEmpty || sensors.isEmpty || entries.any (fun e => e.leaves.isEmpty) then
     .error .badUserInput
@@ -188,19 +218,59 @@ def getBH (flipX : V → V) (vmin vmax : V → V → V) (entries : List (Entry G
   let (pixShapeOut, B4) : List Nat × List (List (List (List V))) :=
     match agg with
     | .none => (shapes.headD [], B3)
-    | a => ([], B3.map fun Bl => Bl.map fun Bm => Bm.map fun px => [aggList a vmin vmax px])
-  let B5 := if sumup then
-      (match B4 with
-       | [] => []
-       | t :: ts => [ts.foldl (fun acc u =>
-           List.zipWith (List.zipWith (List.zipWith (· + ·))) acc u) t])
-    else B4
+    | a => ([], aggT a vmin vmax B3)
+  let B5 := if sumup then sumupT B4 else B4
   let nsrc := if sumup then 1 else entries.length
-  let shape0 := [nsrc, M, sensors.length] ++ pixShapeOut
+  .ok { nsrc := nsrc, M := M, pixShapeOut := pixShapeOut, B := B5 }
+
+/-- the whole of getBH_level2 after input formatting (ndarray output): squeeze, or the
+`expand_dims(axis=-2)` that puts back one pixel axis after pixel_agg -/
+def getBH (flipX : V → V) (vmin vmax : V → V → V) (entries : List (Entry G V))
+    (sensors : List (Sens G V)) (sumup squeeze : Bool) (agg : Agg) : Except Err (Out V) :=
+  match level2Core flipX vmin vmax entries sensors sumup agg with
+  | .error e => .error e
+  | .ok c =>
+  let shape0 := [c.nsrc, c.M, sensors.length] ++ c.pixShapeOut
   let shape1 :=
     if squeeze then shape0.filter (· ≠ 1)
     else if agg != .none then shape0 ++ [1] else shape0
-  .ok { shape := shape1, data := (B5.map fun a => (a.map fun b => b.flatten).flatten).flatten }
+  .ok { shape := shape1, data := flat4 c.B }
+
+/-- source column of the dataframe: the entry's label (modelled by its index), or the single
+label `"sumup (n)"` -/
+inductive SrcId where
+  | sumup (n : Nat)
+  | src (i : Nat)
+  deriving Repr, DecidableEq
+
+/-- `itertools.product(as, bs, cs, ds)`: last factor runs fastest -/
+def product4 {α β γ δ : Type} (as : List α) (bs : List β) (cs : List γ) (ds : List δ) :
+    List (α × β × γ × δ) :=
+  as.flatMap fun a => bs.flatMap fun b => cs.flatMap fun c => ds.map fun d => (a, b, c, d)
+
+/-- the `output == "dataframe"` branch: the index columns (source, path, sensor, pixel) built
+by `itertools.product`, and the value columns `B.reshape(-1, 3)` assigned next to them (pandas
+requires both to have the same number of rows) -/
+structure DataFrame (V : Type) where
+  index : List (SrcId × Nat × Nat × Nat)
+  values : List V
+
+def dataframe (flipX : V → V) (vmin vmax : V → V → V) (entries : List (Entry G V))
+    (sensors : List (Sens G V)) (sumup : Bool) (agg : Agg) : Except Err (DataFrame V) :=
+  match level2Core flipX vmin vmax entries sensors sumup agg with
+  | .error e => .error e
+  | .ok c =>
+  let srcIds : List SrcId :=
+    if sumup && entries.length > 1 then [.sumup entries.length]
+    else (List.range entries.length).map .src
+  let sensIds := List.range sensors.length
+  let numOfPixels := if agg == .none then ((sensors.map (·.pixShape)).headD []).foldl (· * ·) 1 else 1
+  .ok { index := product4 srcIds (List.range c.M) sensIds (List.range numOfPixels),
+        values := flat4 c.B }
+
+/-- the rows of the dataframe: index tuple next to its value -/
+def dataframeRows (df : DataFrame V) : List ((SrcId × Nat × Nat × Nat) × V) :=
+  df.index.zip df.values
 
 end
 end MagpyVerif.Level2
